@@ -410,6 +410,7 @@ void add_type(Node *node);
 
 void codegen(Obj *prog, FILE *out);
 int align_to(int n, int align);
+bool struct_in_memory(Type *ty);
 
 //
 // unicode.c
